@@ -76,6 +76,7 @@ func NewCtx(id, tier, level string) *Ctx {
 	if ri := os.Getenv("VERIF_RACE_INFO"); ri != "" {
 		c.Cov["race_pass_free_running"] = ri
 	}
+	current = c
 	return c
 }
 
@@ -256,8 +257,27 @@ func (c *Ctx) writeEvidence(newViol, knownSeen int) {
 }
 
 // HarnessError aborts the run with exit code 2 (never a VIOLATION).
+// current is the context of the running check (one per process).
+var current *Ctx
+
 func HarnessError(format string, a ...any) {
 	fmt.Printf("HARNESS-ERROR: "+format+"\n", a...)
+	// violations found before the harness stumbled are results, not to be lost: report them (exit 1 if any is not a
+	// known finding); the run is marked not exhaustive
+	if c := current; c != nil {
+		current = nil // no recursion
+		c.mu.Lock()
+		n := len(c.violations)
+		c.mu.Unlock()
+		if n > 0 {
+			c.Exhaustive = false
+			c.Cov["harness_error"] = fmt.Sprintf(format, a...)
+			if code := c.Finish(); code == 1 {
+				Cleanup()
+				os.Exit(1)
+			}
+		}
+	}
 	Cleanup()
 	os.Exit(2)
 }
